@@ -167,3 +167,68 @@ Example C06_hyps_met :
   end.
 Proof. vm_compute. repeat split; reflexivity. Qed.
 Print Assumptions C06_hyps_met.
+
+(* ======================= the LTS and the whole-engine model agree (SeqRef/*.v) =======================
+   Uci/Conc.v (search abstract, all schedules) and Uci/Engine.v (the real search, parsers and positions, sequential) are two models
+   of the same handlers, each tied to the Go code by its own differential runs.  On a sequential dialogue - the reader executes
+   each handler to its end, and after an accepted go the search goroutine runs to its end before the next line - the LTS under
+   the sequential schedule prints exactly the abstraction of what the engine model prints and ends in the abstraction of its state.
+   Abstraction: position (with a search object created) -> CPos, go -> CGo (finite; or CGo true; CStop with [infin] = the parsed
+   infinite flag), isready -> CReady, stop -> CStop, all other lines stutter; OReadyOk -> EReady, OBestMove -> EBest k,
+   "wrong idle state" -> ERefusePos, "no position is set" -> ERefuseGo, info lines -> nothing. *)
+From Clemens Require Uci.Engine Uci.EngineInst Uci.Input.
+From Clemens.SeqRef Require SeqConc SeqAbs SeqMain SeqGo.
+Import Clemens.Uci.Engine Clemens.Uci.EngineInst.
+
+Theorem C06_sequential_refinement : forall infin iters fuel lcs e e' out,
+  Forall (fun lc => SeqGo.go_admitted (fst lc)) lcs ->
+  en_state e <> ST_RUNNING ->
+  go_run iters fuel e lcs = (SEof e', out) ->
+  let d := SeqGo.go_abs_dialogue infin (map fst lcs) in
+  SeqConc.seq_ok (SeqAbs.ready_e e) d = true ->
+  let s' := Conc.run Conc.repaired (SeqAbs.abs_state e d) (SeqConc.seq_sched (SeqAbs.ready_e e) 0 d) in
+  Conc.c_out s' = rev (SeqAbs.abs_out 0 out) /\
+  Conc.c_gst s' = SeqAbs.abs_gst (en_state e') /\ Conc.c_has_search s' = SeqAbs.has_game e' /\
+  Conc.c_lines s' = [] /\ Conc.c_rpc s' = None /\ Conc.c_gs s' = [] /\ Conc.c_lock s' = false /\
+  (forall t, In t (Conc.c_searches s') -> Conc.s_pc t = Conc.SDone) /\
+  Conc.stuck Conc.repaired s' = true.
+Proof. exact SeqGo.go_seq_refinement. Qed.
+Print Assumptions C06_sequential_refinement.
+
+(* [seq_ok] (no position/go line follows a refused go; implied by well-formedness) is EXACT: without it the two models part,
+   because the LTS's GUI waits for a bestmove even after a refused go while the engine model has no GUI - a difference in the
+   environment assumption, not in the engine; invisible inside C06, whose theorems assume well-formed dialogues *)
+Theorem C06_sequential_agreement_iff : forall infin iters fuel lcs e e' out,
+  Forall (fun lc => SeqGo.go_admitted (fst lc)) lcs ->
+  en_state e <> ST_RUNNING ->
+  go_run iters fuel e lcs = (SEof e', out) ->
+  let d := SeqGo.go_abs_dialogue infin (map fst lcs) in
+  let s' := Conc.run Conc.repaired (SeqAbs.abs_state e d) (SeqConc.seq_sched (SeqAbs.ready_e e) 0 d) in
+  Conc.c_lines s' = [] <-> SeqConc.seq_ok (SeqAbs.ready_e e) d = true.
+Proof. exact SeqGo.go_seq_agreement_iff. Qed.
+Print Assumptions C06_sequential_agreement_iff.
+
+(* the clauses of C06, proved above for ALL schedules of the LTS, transferred to the sessions of the engine model: in a
+   well-formed session from process start nothing is refused, and there is exactly one bestmove per go, one readyok per isready *)
+Theorem C06_engine_no_refusal : forall infin iters fuel lcs e' out,
+  Forall (fun lc => SeqGo.go_admitted (fst lc)) lcs ->
+  go_run iters fuel go_engine_init lcs = (SEof e', out) ->
+  Conc.wf false (SeqGo.go_abs_dialogue infin (map fst lcs)) = true ->
+  ~ In ONoPosition out /\ ~ In (OPos PMWrongState) out.
+Proof. exact SeqGo.go_engine_no_refusal. Qed.
+Print Assumptions C06_engine_no_refusal.
+
+Theorem C06_engine_exactly_one_bestmove : forall infin iters fuel lcs e' out,
+  Forall (fun lc => SeqGo.go_admitted (fst lc)) lcs ->
+  go_run iters fuel go_engine_init lcs = (SEof e', out) ->
+  Conc.wf false (SeqGo.go_abs_dialogue infin (map fst lcs)) = true ->
+  SeqMain.count_bestmoves out = List.length (filter (SeqMain.is_go_line GoConsts.validFirstInputToken) (map fst lcs)) /\
+  SeqMain.count_readyoks out = List.length (filter (SeqMain.is_isready_line GoConsts.validFirstInputToken) (map fst lcs)) /\
+  forall k, k < List.length (filter (SeqMain.is_go_line GoConsts.validFirstInputToken) (map fst lcs)) ->
+            ConcLemmas.best_occ k (SeqAbs.abs_out 0 out) = 1.
+Proof. exact SeqGo.go_engine_exactly_one_bestmove. Qed.
+Print Assumptions C06_engine_exactly_one_bestmove.
+
+(* both models evaluated by the kernel on a twelve-line session (stutter lines, a rejected move, oracle-ended searches,
+   go infinite, a final refused go): equal outputs and states *)
+Example C06_sequential_agreement_example := SeqGo.session_agree_both_models.
